@@ -140,8 +140,8 @@ def oracle_all(idx, impl):
     return out
 
 
-CLAIM_PENDING = {
-    "text": "Theorems (Coq, closed): for option records that agree on use_update, relaxed, filter, delete_after and observer, the reader loop produces the same table from the same stream whatever -i, -o, -c, -u are (step simulation + induction; the model of the loop does read those options); for option records differing only in the observer the tables agree on every field except the distance. Tied to the code by running the same generated histories (all formats, junk, time steps across the CPR window and the expiry limit) on the real reader under pairs of option sets differing only in presentation options, only in -O, and only in -U (valid-value DF4/5/11/17 histories), comparing row by row, and each run with the extracted model.",
-    "note": "-U neutrality is established by the pairwise differential runs (and per-frame lemmas where proved); -D / -l file logging is outside the model.",
+CLAIM = {
+    "text": "Theorems C19_presentation_step/_stream/C19_presentation, C19_observer_only_distance, C19_U_neutral_frame/_table (Coq, closed): for option records that agree on use_update, relaxed, filter, delete_after and observer, the reader loop produces the same table from the same stream whatever -i, -o, -c, -u are (step simulation + induction; the model of the loop does read those options); option records differing only in the observer give tables that agree on every field except the distance; and for a DF4/5/11/17 frame whose carried value is valid, the squitter path (-U) and the downlink path (default) agree on callsign, altitude, squawk, position, distance, ground speed, track, vertical rate, category, surveillance status, the CPR slots and the time stamps whenever the rows agreed before (per frame kind, lifted to the table update). Tied to the code by running the same generated histories on the real reader under pairs of option sets differing only in presentation options, only in -O, and only in -U, comparing row by row, and each run with the extracted model.",
+    "note": "-U neutrality is proved per frame on an existing row and checked end-to-end by the pairwise differential runs (row creation always uses the downlink path in both modes); -D / -l file logging is outside the model.",
     "technique": "Coq proof: simulation relation over the reader loop (induction over the stream); pairwise differential runs on the implementation",
 }
